@@ -52,6 +52,19 @@ fn eval() {
                 println!("=> panic {}", msg.lines().next().unwrap_or(""));
             }
         }
+        if std::env::var("VH_RSS").is_ok() {
+            // resident memory now and its high-water mark (kB), for the constant-space checks
+            let status = std::fs::read_to_string("/proc/self/status").unwrap_or_default();
+            let field = |name: &str| -> String {
+                status
+                    .lines()
+                    .find(|l| l.starts_with(name))
+                    .and_then(|l| l.split_whitespace().nth(1))
+                    .unwrap_or("0")
+                    .to_string()
+            };
+            println!("## rss_kb={} hwm_kb={}", field("VmRSS:"), field("VmHWM:"));
+        }
     }
 }
 
